@@ -104,11 +104,16 @@ def bind_params(I, fd, args, kwargs, selfv, st, ctx, defaults_ctx):
             env[p.arg] = eval_default(I, d, st, defaults_ctx)
         else:
             return Raise("TypeError")
-    if a.kwarg is not None:
+    if a.kwarg is not None and set(kw) == {"$symbolic_kwargs"} and isinstance(kw["$symbolic_kwargs"], Ref):
+        # called with **<a mapping of unknown keys>: the callee's **kwargs IS that mapping
+        env[a.kwarg.arg] = kw["$symbolic_kwargs"]
+    elif a.kwarg is not None:
         r = I.alloc_dict(st)
         for k, v in kw.items():
             I.dict_store(st, r, Conc(k), v)
         env[a.kwarg.arg] = r
+    elif "$symbolic_kwargs" in kw:
+        raise OutOfReach("**<mapping of unknown keys> passed to a function without **kwargs")
     elif kw:
         return Raise("TypeError")
     return env
